@@ -41,6 +41,15 @@ func (g *G) genC07(p *Plan) {
 			c.LinUploads = append(c.LinUploads, [2]string{b, key()})
 		}
 	}
+	// disk errors under completes (the only multipart request that touches the
+	// disk): the uploads get keys of their own, which a refused complete may
+	// leave without their previous content
+	faultyMPU := c.IsFS() && c.FS == "simfs" && nup > 0 && g.chance(0.5)
+	if faultyMPU {
+		for i := range c.LinUploads {
+			c.LinUploads[i][1] = fmt.Sprintf("up-only-%d", i)
+		}
+	}
 	if c.IsFS() && nup == 0 && g.chance(0.2) {
 		// a key below another key: a file-system backend holds one of the two
 		// at a time and refuses the newcomer; whichever is acknowledged stays
@@ -68,6 +77,9 @@ func (g *G) genC07(p *Plan) {
 		for i := 0; i < nops; i++ {
 			var op Op
 			r := g.rng.Intn(100)
+			if faultyMPU && g.chance(0.4) {
+				r = 99
+			}
 			switch {
 			case r < 32:
 				sz := 8 + g.rng.Intn(200)
@@ -125,6 +137,9 @@ func (g *G) genC07(p *Plan) {
 						switch r := g.rng.Intn(10); {
 						case r < 7:
 							op = Op{K: "mpu-complete", Up: g.rng.Intn(nup), Parts: []PartRef{{N: 1}, {N: 2}, {N: 3}}[:g.n(1, 3)]}
+							if faultyMPU && g.chance(0.6) {
+								op.Faults = []Fault{{Kind: g.pick("eio", "eio", "enospc"), At: g.n(1, 12), N: g.n(0, 10)}}
+							}
 						case r < 8:
 							op = Op{K: "mpu-abort", Up: g.rng.Intn(nup)}
 						default:
